@@ -202,3 +202,23 @@ Proof.
   intros Hok. unfold src_write_data_ok in Hok.
   gated Hok (unfold src_write_data; enc_solve).
 Qed.
+
+(* ---- the flush parser (one read, under a test of the extras length) and the
+   header-only parser (no read at all) ------------------------------------------ *)
+Lemma flush_body_is_source : src_flush_read_ok = true -> forall h body,
+  parse_flush h body =
+  if negb (request_valid h false) then DError EInvalidData else
+  if h_extlen h =? fst src_flush_read then
+    match get_n (snd src_flush_read) body with
+    | None => DPanic
+    | Some (exp, _) => DFrame (ReqFlush (negb (h_opcode h =? cmd_Flush)) h exp)
+    end
+  else DFrame (ReqFlush (negb (h_opcode h =? cmd_Flush)) h 0).
+Proof.
+  intros Hok h body. unfold src_flush_read_ok in Hok.
+  gated Hok (unfold parse_flush, src_flush_read; cbn [fst snd]; reflexivity).
+Qed.
+
+Lemma header_only_reads_nothing : src_header_only_reads_nothing = true ->
+  forall h b1 b2, parse_header_only h b1 = parse_header_only h b2.
+Proof. intros _ h b1 b2. reflexivity. Qed.
